@@ -400,6 +400,14 @@ func runBuilder(c bCase) harness.Result {
 		of := r.Fields[0]
 		of.Name, of.Address = "outside", uint16(outside)
 		r3.Fields = append([]modbus.Field{of}, r.Fields...)
+		// strict extraction must fail as a whole, wherever the out-of-window field stands in the list
+		r4 := r
+		r4.Fields = append(append([]modbus.Field(nil), r.Fields...), of)
+		for _, rs := range []modbus.BuilderRequest{r3, r4} {
+			if fvS, errS := rs.ExtractFields(resp, false); errS == nil {
+				return harness.Fail("strict extraction with a coil field at %d, outside the response window starting at %d (%d bytes), returned %d values and no error", outside, r.StartAddress, len(payload), len(fvS))
+			}
+		}
 		fv, _ := r3.ExtractFields(resp, true)
 		if len(fv) != len(r3.Fields) {
 			return harness.Fail("lenient extraction with an out-of-window field first returned %d values for %d fields", len(fv), len(r3.Fields))
